@@ -81,8 +81,19 @@ def run(ctx):
     core.lean_phase(ctx)
     rng = ctx.rng
     reqs, metas = [], []
+
+    def flush():
+        outs = ctx.driver.run(reqs) if reqs else []
+        for req, meta, out in zip(reqs, metas, outs):
+            ctx.count("model_requests")
+            if out.get("ok", out) != meta[3]:
+                ctx.mismatch(meta[0], {"request": req, "context": meta[2]}, meta[3], out)
+        del reqs[:], metas[:]
+
     n_schemas = ctx.budget(60, 600)
     for si in range(n_schemas):
+        if len(reqs) >= 15000:
+            flush()     # keep memory bounded in long runs
         if ctx.time_left(60, 600) < 0:
             break
         info = random_mark_schema(rng)
@@ -203,11 +214,7 @@ def run(ctx):
                         metas.append(("allowedMarks", info, replay, [info.marks(filt), bool(allows)]))
                     ctx.count("allowed_marks")
                 ref = exp
-    outs = ctx.driver.run(reqs) if reqs else []
-    for req, meta, out in zip(reqs, metas, outs):
-        ctx.count("model_requests")
-        if out.get("ok", out) != meta[3]:
-            ctx.mismatch(meta[0], {"request": req, "context": meta[2]}, meta[3], out)
+    flush()
     return ctx.finish(
         rule="a case is (random mark configuration incl. '_', empty, named and group exclusions; a set reached by a "
              "random add/remove sequence; a mark) for add_to_set / remove_from_set and the derived queries; "
